@@ -379,6 +379,51 @@ func c08Headers(p *Prog, r *Report) {
 				}
 			}
 			okP = fromHost && consts["443"] && consts["80"]
+			// precedence: a default ("443"/"80") is returned only when the Host carries no usable port
+			if okP {
+				var del []Edge
+				for _, cl := range Calls(pf) {
+					sc, ok := cl.(*ssa.Call)
+					if !ok || !ccIs(sc.Common(), "net", "SplitHostPort") {
+						continue
+					}
+					for _, t := range NilTests(pf, resultValue(sc, 2)) {
+						del = append(del, t.NonNil)
+					}
+					for _, b := range pf.Blocks {
+						ifi, ok := b.Instrs[len(b.Instrs)-1].(*ssa.If)
+						if !ok {
+							continue
+						}
+						cond, pos := condStrip(ifi.Cond)
+						bo, ok := cond.(*ssa.BinOp)
+						if !ok || (bo.Op != token.EQL && bo.Op != token.NEQ) {
+							continue
+						}
+						x, y := bo.X, bo.Y
+						if sv, ok := constString(x); ok && sv == "" {
+							x, y = y, x
+						}
+						if sv, ok := constString(y); !ok || sv != "" || !resultValue(sc, 1)(x) {
+							continue
+						}
+						emptyOnTrue := (bo.Op == token.EQL) == pos
+						if emptyOnTrue {
+							del = append(del, Edge{b, 0})
+						} else {
+							del = append(del, Edge{b, 1})
+						}
+					}
+				}
+				for _, ret := range Returns(pf) {
+					if sv, ok := constString(ReturnOperand(ret, 0)); ok && sv != "" {
+						r.Paths++
+						r.Check(!ReachableWithoutEdges(pf, ret, del), "C08.R4", rn+": default port "+sv+" only when the Host carries no port", p.InstrPos(ret),
+							"this return is reachable only on the edges where SplitHostPort(req.Host) failed or gave an empty port",
+							"the default "+sv+" can be returned although the Host header names a port: X-Forwarded-Port no longer describes the port the client connected to")
+					}
+				}
+			}
 		}
 		r.Check(okP, "C08.R4", rn+": X-Forwarded-Port from the Host's port, else 443/80", p.InstrPos(s.call), "SplitHostPort(req.Host) port, else 443 / 80", "the forwarded port is not derived from the Host header's port with 443/80 defaults")
 	}
@@ -517,6 +562,30 @@ func c08Wiring(p *Prog, r *Report) {
 					okHost = true
 				}
 			}
+		}
+	}
+	// the forwarding headers are derived from the INCOMING Host: the Host override must not precede the header rewriter
+	rewr := NewEvents(p, func(in ssa.Instruction) bool {
+		cc := CallCommonOf(in)
+		return cc != nil && cc.StaticCallee() != nil && cc.StaticCallee().Name() == "Rewrite" && p.InModule(cc.StaticCallee())
+	})
+	for _, b := range hook.Blocks {
+		for _, in := range b.Instrs {
+			st, ok := in.(*ssa.Store)
+			if !ok {
+				continue
+			}
+			if _, f, _, ok := fieldOf(st.Addr); !ok || f != "Host" || !strings.HasSuffix(BuildExpr(p, st.Addr, nil).String(), ".Host") {
+				continue
+			}
+			late := false
+			for x := range Reach(hook, st, nil, nil) {
+				if rewr.MayInstr(x) {
+					late = true
+				}
+			}
+			r.Check(!late, "C08.R4", "forward.New: X-Forwarded-Host is taken from the client's Host, before Host is pointed at the backend", p.InstrPos(st),
+				"the header rewriter is not reachable after the Host override", "the header rewriter runs after request.Host was overwritten with the backend's host: X-Forwarded-Host (and the port derived from Host) describe the backend, not the incoming connection")
 		}
 	}
 	r.Check(okHost, "C08.R3", "forward.New: Host := URL.Host exactly when host pass-through is off", p.FuncPos(hook), "store on the passHostHeader == false edge, on every path of it", "the Host header is not rewritten to the backend's host exactly when pass-through is disabled")
